@@ -111,6 +111,13 @@ func (rt *scenRT) scenarioFn(t *f1t.T) f1t.RunFn {
 		rt.run = rt.st.combined(t)
 	}
 	behave(t, p.SetupBehav)
+	if p.SetupLateErrorNs > 0 {
+		d := p.SetupLateErrorNs
+		go func() {
+			time.Sleep(time.Duration(d))
+			t.Errorf("late report on the setup handle from a goroutine setup left behind")
+		}()
+	}
 	if p.SetupRegLate {
 		rt.regSetupCleanups(t)
 	}
